@@ -16,7 +16,7 @@ from harness import vlib
 
 FIELDS = ["type", "kind", "shape"]     # discriminator key names; id = position
 FIELD = FIELDS[0]
-N_ENUM = 64          # members of the StrEnum used for enum-styled tags
+N_ENUM = 200         # members of the StrEnum used for enum-styled tags
 KERR_MARKER = 999    # Discr.kerr_marker: the input carries the key "kerr"
 
 PREAMBLE = """
@@ -497,6 +497,10 @@ def gen_history(rng, stream: str = "main", max_ops: int = 40) -> Hist:
                     keys[fid] = min(rng.choice(other) if other and rng.random() < 0.8 else rng.randrange(0, next_tag[0] + 3), N_ENUM - 1)
             for fid, tg in keys.items():
                 inp[FIELDS[fid]] = tag_value(style, tg, rng.randrange(8) if free_spelling else 0)   # key present, whatever the value
+            if s["field"] and rng.random() < 0.04:
+                # a value that is not hashable cannot be anybody's tag (model: Unhashable)
+                keys[s["fid"]] = "U"
+                inp[FIELDS[s["fid"]]] = rng.choice([[1], {"a": 1}, [], [["t1"]]])
             if kind == "field" and rng.random() < 0.5:
                 inp["x"] = rng.randrange(0, 9)
         if has_req:
@@ -525,6 +529,15 @@ def gen_history(rng, stream: str = "main", max_ops: int = 40) -> Hist:
         dialect = rng.choice(sorted(by_dialect, key=str))
         unit = by_dialect[dialect]
         s = sites[unit[0]]
+        if len(unit) == 1 and stream != "kf" and rng.random() < 0.04:
+            # the input is not a mapping (never None: the Optional shapes answer None themselves)
+            ops.append(("decodebad", unit[0]))
+            step = decode_step(s, rng.choice([[1, 2], 5, "abc", 1.5, [], True]))
+            if dialect:
+                step["dialect"] = dialect
+            script.append(step)
+            op_of_step.append(len(ops) - 1)
+            return
         if len(unit) == 1:
             keys, present, inp = gen_input(s)
             ops.append(("decode", unit[0], dict(keys), present))
@@ -633,6 +646,13 @@ def unwrap_exc(e: BaseException):
 
 def outcome_of_exc(e: BaseException):
     u = unwrap_exc(e)
+    if u.startswith("exc:"):
+        cur, n = e, 0
+        while cur is not None and n < 6:       # the dispatcher's own answer to a non-mapping input
+            if type(cur) is ValueError and "discriminated by" in str(cur) and "should be a dict instance" in str(cur):
+                return ("notdict",)
+            cur = cur.__cause__ or cur.__context__
+            n += 1
     return ("rej", u[4:]) if u.startswith("rej:") else (u,)
 
 
@@ -704,6 +724,10 @@ def spec_field(ns: dict, n_classes: int, s: dict, inp: dict):
     if fname not in inp:             # key absent (a key present with a falsy value or None is present)
         return ("missing",), None
     t = inp[fname]
+    try:
+        hash(t)
+    except TypeError:                # a value that cannot be a dict key is nobody's tag (/repo db5b89f)
+        return ("notfound",), None
     car = [c for c in spec_eligible(ns, n_classes, s) if any(t == v for v in spec_own_tags(ns, c, s))]
     if len(car) == 1:
         c = car[0]
@@ -822,6 +846,15 @@ def run_history(h: Hist):
                                   fmt(exp), fmt(obs), {"kind": "variant-keyerror-misreported" if kf else "field-dispatch", "wiring": "holder-multi"}))
                 continue
             s = h.sites[op[1]]
+            if op[0] == "decodebad":
+                obs = do_decode(ns, step)
+                observed[oi] = obs
+                # a field dispatcher names the problem (ValueError, /repo 60866ea); without a key nobody accepts the input
+                exp = ("notdict",) if s["field"] else ("notfound",)
+                if obs != exp and (s["field"] or obs[0] == "inst"):
+                    fails.append((k, f"{step['call']}({step['input']!r}) -> {fmt(obs)}, expected {fmt(exp)}", fmt(exp), fmt(obs),
+                                  {"kind": "non-mapping-input", "wiring": s["wiring"]}))
+                continue
             shadow = shadowed(ns, n_classes) if not s["field"] else set()
             obs = do_decode(ns, step)
             observed[oi] = obs
@@ -867,6 +900,8 @@ def fmt(o) -> str:
         return "KeyError of " + o[1]
     if o[0] == "many":
         return "+".join(o[1])
+    if o[0] == "notdict":
+        return "ValueError(should be a dict instance)"
     return {"missing": "MissingDiscriminatorError", "notfound": "SuitableVariantNotFoundError"}.get(o[0], o[0])
 
 
@@ -882,6 +917,10 @@ def coq_pairs(d: dict) -> str:
     return "[" + "; ".join(f"({int(k)}, {int(v)})" for k, v in sorted(d.items())) + "]"
 
 
+def coq_inkeys(d: dict) -> str:
+    return "[" + "; ".join(f"({int(k)}, {'Unhashable' if v == 'U' else 'Hashable %d' % int(v)})" for k, v in sorted(d.items())) + "]"
+
+
 def coq_site(s: dict) -> str:
     b = vlib.coq_bool
     return (f"Site {coq_nats(s['bases'])} {b(s['sub'])} {b(s['sup'])} {b(s['field'])} {b(s['tagger'])} {b(s['config'])} "
@@ -894,9 +933,11 @@ def coq_op(op) -> str:
         tts = "[" + "; ".join(f"({int(g)}, {coq_nats(l)})" for g, l in sorted(tt.items())) + "]"
         return f"Define {coq_nats(ps)} {coq_pairs(tg)} {tts} {coq_nats(rq)} {vlib.coq_bool(ke)}"
     if op[0] == "decodeseq":
-        return "DecodeSeq [" + "; ".join(f"({si}, {coq_pairs(k)}, {coq_nats(pr)})" for si, k, pr in op[1]) + "]"
+        return "DecodeSeq [" + "; ".join(f"({si}, {coq_inkeys(k)}, {coq_nats(pr)})" for si, k, pr in op[1]) + "]"
+    if op[0] == "decodebad":
+        return f"DecodeBad {op[1]}"
     _, si, keys, present = op
-    return f"Decode {si} {coq_pairs(keys)} {coq_nats(present)}"
+    return f"Decode {si} {coq_inkeys(keys)} {coq_nats(present)}"
 
 
 def coq_outcome(o) -> str:
@@ -911,6 +952,8 @@ def coq_outcome(o) -> str:
         return "Some OMissing"
     if o[0] == "notfound":
         return "Some ONotFound"
+    if o[0] == "notdict":
+        return "Some ONotDict"
     if o[0] == "rej" and o[1].startswith("C") and o[1][1:].isdigit():
         return f"Some (ORej {int(o[1][1:])})"
     if o[0] == "many" and all(n.startswith("C") and n[1:].isdigit() for n in o[1]):
@@ -1318,7 +1361,7 @@ def probe_optional_union(ctx: vlib.Ctx, n: int):
 # ---------------------------------------------------------------------------
 
 CODE_THEOREMS = ["C12_code_variants", "C12_code_exceptions"]
-THEOREMS = ["C12_registry_invariant", "C12_registry", "C12_missing_tag", "C12_present_keys_not_missing", "C12_nested_missing_key", "C12_multi_field", "C12_variant_keyerror_refuted", "C12_history_independent",
+THEOREMS = ["C12_registry_invariant", "C12_registry", "C12_missing_tag", "C12_present_keys_not_missing", "C12_nested_missing_key", "C12_multi_field", "C12_variant_keyerror_refuted", "C12_unhashable_tag", "C12_non_mapping", "C12_history_independent",
             "C12_eligible_exact", "C12_nofield", "C12_trace_event", "C12_tag_unique_decidable",
             "C12_nonunique_order_dependent", "C12_class_level_self_excluded",
             "C12_nofield_inherited_unpacker_refuted"]
@@ -1467,7 +1510,9 @@ def run(ctx: vlib.Ctx):
         ctx.hist("tag_style", h.style.split(":")[0])
         if h.kind in ("field", "mixed"):
             for st in h.script:
-                if st["op"] == "decode" and st.get("input") is not None:
+                if st["op"] == "decode" and not isinstance(st.get("input"), dict) and not st.get("multi"):
+                    ctx.hist("input_tag_value", "input is not a mapping")
+                if st["op"] == "decode" and isinstance(st.get("input"), dict):
                     if st.get("dialect"):
                         ctx.hist("call_time_dialect", st["dialect"])
                     if "kerr" in st["input"]:
@@ -1478,7 +1523,7 @@ def run(ctx: vlib.Ctx):
                         kind_v = "key absent"
                     else:
                         v = st["input"][present_keys[0]]
-                        kind_v = ("None" if v is None else "bool" if isinstance(v, bool) else
+                        kind_v = ("unhashable" if isinstance(v, (list, dict)) else "None" if v is None else "bool" if isinstance(v, bool) else
                                   "falsy " + type(v).__name__ if not v else type(v).__name__)
                     ctx.hist("input_tag_value", kind_v)
         ctx.hist("classes_per_history", str(min(len(h.meta["classes"]), 14)))
